@@ -181,14 +181,63 @@ PROPS = {
     },
 }
 
+U4 = "u4_fd"
+A_FLOAT = "A-float: NONE - floating point values are uninterpreted in U4 (f64 arithmetic routed through value-less adapters); no claim treats machine floats as reals"
+A_CLOCK2 = "A-clock: Instant/Duration are natural numbers of nanoseconds; Instant + Duration adds, comparisons compare (time_axioms in u4_fd.vrs)"
+A_FD_ENTRY = "A-fd-entry: contract of FailureDetector::get_or_create_sampling_window (HashMap Entry API + closure) is assumed in U4 and checked by the bounded driver fd_model; HashMap::get_mut and `&HashMap` iteration are specified by hand after vstd's BTreeMap specs"
+N_FD = {"test": "verif_fd_model", "pairs": ["FailureDetector::update_node_liveness", "FailureDetector::garbage_collect", "FailureDetector::report_heartbeat", "SamplingWindow::report_heartbeat", "SamplingWindow::phi"]}
+N_C11S = {"test": "verif_c11_steady", "pairs": []}
+N_C12 = {"test": "verif_c12_timeline", "pairs": []}
+
+PROPS.update({
+    "C10": {
+        "level": "proof",
+        "verus": [{"unit": U4, "fns": ["SamplingWindow::phi", "SamplingWindow::report_heartbeat", "SamplingWindow::reset", "BoundedArrayStats::append",
+                                       "BoundedArrayStats::len", "BoundedArrayStats::clear", "FailureDetector::phi", "FailureDetector::update_node_liveness",
+                                       "FailureDetector::report_heartbeat"]},
+                  {"unit": U1, "fns": ["NodeState::try_set_heartbeat"]}],
+        "native": [N_FD],
+        "kani": [],
+        "assumptions": [A_STD, A_KEY, A_FLOAT, A_CLOCK2, A_FD_ENTRY, A_TEST_CFG],
+        "level_text": "Only the discrete clause is decided by proof: phi is None unless the window holds at least one interval and a last heartbeat; a window gains an interval only on a report that follows an earlier report and only if the interval is <= max_interval; update_node_liveness puts a member without phi into the dead set and clears its window; BoundedArrayStats::append is index-safe and never exceeds the capacity (capacity >= 1). Hence a member with fewer than two usable heartbeat observations is never reported live, for every history.",
+        "level_note": "NOT decided: the delay bound 'silent for longer than phi_threshold x max(max_interval, initial_interval) => dead' is an inequality over f64 values computed from an incrementally maintained floating-point sum; Verus has no float semantics and the premise sum <= len x max_interval is not an invariant of the drifting sum, so no obligation is generated for it (treating floats as reals would be an unlisted assumption). It is only exercised by the bounded driver fd_model (all event histories up to length 5/6 over 2 members with boundary clock steps + seeded histories), labelled bounded.",
+        "technique": "Verus contracts on the extracted detector for the evidence-counting clause; bounded native reference-model comparison for the float-valued bound",
+        "explanation": "",
+        "design_ref": "DESIGN.md §7 C10",
+    },
+    "C11": {
+        "level": "proof",
+        "verus": [{"unit": U1, "fns": ["NodeState::try_set_heartbeat"]},
+                  {"unit": U4, "fns": ["SamplingWindow::report_heartbeat", "SamplingWindow::phi", "FailureDetector::report_heartbeat",
+                                       "FailureDetector::update_node_liveness", "FailureDetector::phi"]}],
+        "native": [N_FD, N_C11S, {"test": "verif_c05_owner", "pairs": []}],
+        "kani": [],
+        "assumptions": [A_STD, A_KEY, A_DERIVE, A_FLOAT, A_CLOCK2, A_FD_ENTRY, A_TEST_CFG],
+        "level_text": "Evidence counting is decided by proof: try_set_heartbeat returns true exactly for a strictly greater value over a non-zero stored one (equal, lower and replayed values return false and leave the copy untouched; the first value is stored silently); FailureDetector::report_heartbeat never changes the live/dead classification and is the only writer of the window / last heartbeat; live after an evaluation implies a window with >= 1 interval and a last heartbeat, i.e. >= 2 reports.",
+        "level_note": "The call site Chitchat::report_heartbeat (detector fed only when try_set_heartbeat returned true) is covered by bounded drivers until U5 puts it under contract. NOT decided: the steady-heartbeat accuracy sentence (floating-point inequality, same reason as C10); it is exercised by the bounded driver c11_steady on concrete arrival patterns.",
+        "technique": "Verus contracts (strictness of try_set_heartbeat, window discipline); bounded native runs for the float-valued accuracy clause",
+        "explanation": "",
+        "design_ref": "DESIGN.md §7 C11",
+    },
+    "C12": {
+        "level": "proof",
+        "verus": [{"unit": U4, "fns": ["FailureDetector::update_node_liveness", "FailureDetector::garbage_collect", "FailureDetector::report_heartbeat"]}],
+        "native": [N_FD, N_C12, {"test": "verif_c07_window", "pairs": []}],
+        "kani": [],
+        "assumptions": [A_STD, A_KEY, A_CLOCK2, A_FD_ENTRY, A_TERM, A_TEST_CFG],
+        "level_text": "Classification is decided by proof on the extracted detector: after update_node_liveness(id) the member is in exactly one of live/dead, nobody else's membership or time of death changes, disjointness is an invariant, the time of death is kept while dead; garbage_collect returns exactly the members dead for >= the grace period at the instant it reads, removes them from the dead map and the samples and touches nobody else (two loop invariants over HashMap iteration).",
+        "level_note": "scheduled_for_deletion_nodes (filter_map + Duration::div_f32), the exclusion filters in compute_digest / compute_partial_delta_respecting_mtu, the self-id guards of update_nodes_liveness and the re-creation guard in report_heartbeat are iterator chains / lib.rs glue: bounded drivers fd_model (reference detector incl. the grace/2 set), c12_timeline (paused clock at grace/2 -1/0/+1 ms and grace -1/0/+1 ms, every outgoing message decoded, re-learning with heartbeat known-1/known/known+1) and c07_window (every subset scheduled). Bounded, not proved.",
+        "technique": "Verus contracts + loop invariants on the extracted failure detector; bounded native timeline for quarantine / removal / re-creation",
+        "explanation": "",
+        "design_ref": "DESIGN.md §7 C12",
+    },
+})
+
 NOT_APPLICABLE = {
     "C01": "liveness over unbounded multi-node histories under fairness; no contract on one call expresses 'within a bounded number of handshakes' (its per-handshake progress sentence is decided under C14: lemma_agree + lemma_admitted_strictly_advances)",
     "C13": "the whole body of update_nodes_liveness is iterator/closure chains over HashMap/BTreeMap feeding a tokio watch channel: Verus cannot take it and Kani cannot build the collections, so no deductive obligation can be generated; a bounded run alone would be testing, a different family",
     "C19": "async select loop, channels, lock ordering and shutdown liveness: concurrency and whole-history behaviour that neither Verus nor Kani models",
     "C08": "not yet claimed: codec contracts (U3b) and Kani round-trip harnesses are under construction",
-    "C10": "not yet claimed: failure-detector unit (U4) under construction",
-    "C11": "not yet claimed: failure-detector unit (U4) under construction",
-    "C12": "not yet claimed: failure-detector unit (U4) under construction",
     "C16": "not yet claimed: lib.rs unit (U5) under construction",
     "C17": "not yet claimed: peer-selection Kani unit (U6) under construction",
 }
